@@ -25,6 +25,33 @@ Scope
               Temporal / Multiplex classes: C02-C04).  If both histories execute, their deep snapshots through the
               public API must agree - otherwise the pair is skipped and counted, the mutators are not C07's subject -
               and then the hashes must be equal.
+  setters     Further equality pairs, on the content enriched with two typed scalar entries (from a pool of int / float /
+              bool values incl. 1 / 1.0 / True, 0 / 0.0 / False, 7 / 7.0, 2**40, 1e-07) at the top level of the hypergraph
+              metadata and of every node's and hyperedge's metadata; weights come from pools holding int and float values
+              (also integral floats such as 7.0).  Pairs (canonical history: everything given to add_node / add_edge /
+              constructor, history in which the final values are written by a setter):
+                weighted   : hyperedges inserted with other weights (the same number in the other numeric type, 7 <-> 7.0,
+                             or another number), then set_weight(final) - two variants; canonical insertion, then
+                             set_weight(other) on every hyperedge and set_weight(final) back; set_weight with the weight
+                             the hyperedge already has;
+                unweighted : set_weight(hyperedge, 1) on every hyperedge (the only admissible weight, integer 1);
+                hyperedge metadata : inserted with other metadata (same keys, values in another numeric type - True -> 1,
+                             7 -> 7.0, 7.0 -> 7 - or other values, or other keys), then set_edge_metadata(final)
+                             (not Multiplex: no such method); inserted with {} and built key by key with
+                             set_attr_to_edge_metadata (provisional value first, then the final one) with a temporary
+                             key set and removed by remove_attr_from_edge_metadata;
+                node metadata : the same with set_node_metadata (not Multiplex) and set_attr_to_node_metadata /
+                             remove_attr_from_node_metadata;
+                hypergraph metadata : constructor given provisional values / nothing, then every key written by
+                             set_attr_to_hypergraph_metadata (provisional values first in the second variant).
+              The setters name the hyperedges with the nodes listed in the insertion order or reversed.
+              Both histories of a pair write the final value of every weight and metadata entry with the very same
+              Python value (same number, same numeric type), so they describe the same content incl. numeric types;
+              when their snapshots through the public API are equal (Python ==, as above) the hashes must be equal.
+              A setter that stores something else than it was given (7 as 7.0, True as 1) therefore shows up here.
+              Difference direction through setters: canonical history vs. canonical history followed by ONE
+              set_weight(w + 1) / set_attr_to_edge_metadata / set_attr_to_node_metadata / set_attr_to_hypergraph_metadata
+              (new key): snapshots must differ (else skipped) and then the hashes must differ.
   difference  Pairs (content, content with ONE element edited), both built canonically (the second in reversed
               order): an isolated node added / removed; a hyperedge added / removed; one node added to / dropped from
               one hyperedge; one weight; one time; one layer; direction swapped / one node moved from source to
@@ -37,11 +64,18 @@ Scope
 Oracle
   The abstract content is what the container reports through its public getters (type, is_weighted, get_nodes(metadata
   =True), get_edges, get_weight, get_edge_metadata, get_hypergraph_metadata), deep-copied into plain dicts; equal
-  content = equal snapshots (weights additionally of the same numeric type), by Python ==.
+  content = equal snapshots by Python ==.  "Same numeric type" of weights and metadata values is guaranteed by construction
+  instead of being read back: the two histories of an equality pair write every final value with the same Python value
+  (taken from one description), whichever call writes it.  (Pairs whose getters nevertheless report a weight in
+  different numeric types are counted in the evidence.)
 Limits
   * Equality of hashes of different container types holding "the same" content is not examined (statement: same type).
   * Weights differing only in numeric type (2 vs 2.0) are not used as an edit; metadata edits always change the value
-    under Python == and in its JSON text.
+    under Python == and in its JSON text.  set_weight(hyperedge, 1.0) / set_weight(hyperedge, True) in an unweighted
+    container (accepted by the code, but another numeric type than the implicit 1) are not used.
+  * set_hypergraph_metadata, set_incidence_metadata, set_layer_metadata / set_dataset_metadata are not part of the setter
+    histories (the first replaces the constructor's entries too and is only used by the purity clause; incidence
+    metadata are not part of the hashed content according to the statement).
   * SHA-256 collisions are ignored.
 Execution
   Fixed tasks (container type x weightedness x label kind x part) in forked worker processes, string-seeded RNG per
@@ -155,6 +189,155 @@ def equal_histories(spec, salt, rng):
             spec, N + E + [["rm_node", n], ["node", n, md]] + _edges_ops(inc) + fix)
 
 
+# ------------------------------------------------------------------------------------------------ setter histories
+# typed scalars: int / float / bool values, among them 1 / 1.0 / True and 0 / 0.0 / False, which are equal under == but have
+# different JSON texts
+SCALARS = [["count", 7], ["ratio", 7.0], ["on", True], ["off", False], ["one", 1], ["unit", 1.0], ["zero", 0], ["nil", 0.0],
+           ["big", 2 ** 40], ["neg", -3], ["tiny", 1e-07], ["half", 0.5]]
+
+
+def _typed_md(md, i):
+    d = copy.deepcopy(md)
+    for j in (i, i + 5):
+        k, v = SCALARS[j % len(SCALARS)]
+        d[k] = v
+    return d
+
+
+def typed_spec(spec, salt):
+    """The content with two typed scalar entries added at the top level of the hypergraph metadata and of every node's and
+    every hyperedge's metadata: the setter histories then meet int, float and bool values at every level, whatever the pools gave."""
+    return _with(spec, hmeta=_typed_md(spec["hmeta"], salt),
+                 nodes=[[n, _typed_md(md, salt + 1 + j)] for j, (n, md) in enumerate(spec["nodes"])],
+                 records=[dict(r, md=_typed_md(r["md"], salt + 3 + 2 * j)) for j, r in enumerate(spec["records"])])
+
+
+def provisional(v, salt):
+    """A value that is going to be overwritten by v: for even salt v in another numeric type where there is one
+    (True -> 1, 7 -> 7.0, 7.0 -> 7), otherwise another value of the same type."""
+    if salt % 2 == 0:
+        if isinstance(v, bool):
+            return int(v)
+        if isinstance(v, int) and abs(v) < 2 ** 53:
+            return float(v)
+        if isinstance(v, float) and abs(v) < 2 ** 53 and v == int(v):
+            return int(v)
+    return mutate_value(v, salt)
+
+
+def _prov_md(md, salt):
+    return {k: provisional(v, salt + j) for j, (k, v) in enumerate(sorted(md.items()))}
+
+
+def setter_histories(spec, salt):
+    """(name, history) pairs that must end in the content described by spec and in which weights / metadata get their final
+    values from set_weight, set_edge_metadata, set_node_metadata and the set_attr_to_... / remove_attr_from_... methods
+    instead of (or after) the inserting call.  Every final value is written with the very Python value of the
+    description, so value and numeric type of everything are those of the canonical history."""
+    kind = spec["kind"]
+    nodes, recs = spec["nodes"], spec["records"]
+    fix = [["fix", nodes]]
+    N, E = _nodes_ops(nodes), _edges_ops(recs)
+    rl = [_relist(kind, r, lambda x: x[::-1]) if j % 2 else r for j, r in enumerate(recs)]   # how the setters name the hyperedges
+    if recs and spec["weighted"]:
+        for s in range(2):
+            other = _edges_ops([dict(r, w=provisional(r["w"], salt + j + s)) for j, r in enumerate(recs)])
+            yield "weights given by set_weight after an insertion with other weights", _hist(
+                spec, N + other + [["set_w", x, r["w"]] for x, r in zip(rl, recs)] + fix)
+        yield "weights changed by set_weight and set back", _hist(
+            spec, N + E + [["set_w", x, provisional(r["w"], salt + j)] for j, (x, r) in enumerate(zip(rl, recs))]
+            + [["set_w", r, r["w"]] for r in recs[::-1]] + fix)
+        yield "set_weight with the weight the hyperedge has", _hist(spec, N + E + [["set_w", x, r["w"]] for x, r in zip(rl, recs)] + fix)
+    if recs and not spec["weighted"]:
+        yield "set_weight(1) in an unweighted container", _hist(spec, N + E + [["set_w", x, 1] for x in rl] + fix)
+    tmp = ["tmp attr", [1, 1.0, True, {"t": 0}][salt % 4]]
+    if recs:
+        if kind != "M":     # MultiplexHypergraph has no set_edge_metadata
+            other = _edges_ops([dict(r, md=_prov_md(r["md"], salt + j) if (salt + j) % 3 else {"tmp": j}) for j, r in enumerate(recs)])
+            yield "hyperedge metadata installed by set_edge_metadata", _hist(
+                spec, N + other + [["set_emd", x, r["md"]] for x, r in zip(rl, recs)] + fix)
+        ops = []
+        for j, (x, r) in enumerate(zip(rl, recs)):
+            items = sorted(r["md"].items())
+            ops += [["attr_e", x, k, provisional(v, salt + j + i)] for i, (k, v) in enumerate(items)] + [["attr_e", x] + tmp]
+            ops += [["attr_e", r, k, v] for k, v in items[::-1]] + [["del_attr_e", r, tmp[0]]]
+        yield "hyperedge metadata built by set_attr_to_edge_metadata / remove_attr_from_edge_metadata", _hist(
+            spec, N + _edges_ops([dict(r, md={}) for r in recs]) + ops + fix)
+    if nodes:
+        if kind != "M":     # nor set_node_metadata
+            other = [["node", n, _prov_md(md, salt + j) if (salt + j) % 3 else {"tmp": j}] for j, (n, md) in enumerate(nodes)]
+            yield "node metadata installed by set_node_metadata", _hist(spec, other + E + [["set_nmd", n, md] for n, md in nodes] + fix)
+        ops = []
+        for j, (n, md) in enumerate(nodes):
+            items = sorted(md.items())
+            ops += [["attr_n", n, k, provisional(v, salt + j + i)] for i, (k, v) in enumerate(items)] + [["attr_n", n] + tmp]
+            ops += [["attr_n", n, k, v] for k, v in items[::-1]] + [["del_attr_n", n, tmp[0]]]
+        yield "node metadata built by set_attr_to_node_metadata / remove_attr_from_node_metadata", _hist(
+            spec, [["node", n, {}] for n, _ in nodes] + E + ops + fix)
+    if spec["hmeta"]:
+        items = sorted(spec["hmeta"].items())
+        for s in range(2):
+            h = _hist(spec, ([["attr_h", k, provisional(v, salt + i)] for i, (k, v) in enumerate(items)] if s else [])
+                      + N + E + [["attr_h", k, v] for k, v in items[::-1]] + fix)
+            h["hmeta"] = {} if s else _prov_md(spec["hmeta"], salt)
+            yield "hypergraph metadata built by set_attr_to_hypergraph_metadata", h
+
+
+def setter_edits(spec, salt):
+    """(name, history) - the canonical history of spec followed by ONE setter call that changes one element of the content."""
+    A = canonical(spec)
+    recs, nodes = spec["records"], spec["nodes"]
+    if recs:
+        r = recs[salt % len(recs)]
+        if spec["weighted"]:
+            yield "a weight (changed by set_weight)", dict(A, ops=A["ops"] + [["set_w", r, r["w"] + 1]])
+        yield "a hyperedge metadata value (key added by set_attr_to_edge_metadata)", dict(
+            A, ops=A["ops"] + [["attr_e", r, "extra key", [salt % 3]]])
+    if nodes:
+        yield "a node metadata value (key added by set_attr_to_node_metadata)", dict(
+            A, ops=A["ops"] + [["attr_n", nodes[salt % len(nodes)][0], "extra key", salt % 3]])
+    yield "a hypergraph metadata value (key added by set_attr_to_hypergraph_metadata)", dict(
+        A, ops=A["ops"] + [["attr_h", "extra key", {"v": salt % 3}]])
+
+
+def _edge_args(kind, r):
+    """The positional arguments that name the hyperedge of record r in the setters."""
+    if kind == "H":
+        return (tuple(r["e"]),)
+    if kind == "D":
+        return ((tuple(r["e"][0]), tuple(r["e"][1])),)
+    return (tuple(r["e"]), r["t"] if kind == "T" else r["l"])
+
+
+def setter_op(h, kind, op):
+    """Executes one setter op; returns False if op is not one."""
+    step = op[0]
+    if step == "set_w":
+        h.set_weight(*_edge_args(kind, op[1]), op[2])
+    elif step == "set_emd":
+        h.set_edge_metadata(*_edge_args(kind, op[1]), copy.deepcopy(op[2]))
+    elif step == "attr_e":
+        h.set_attr_to_edge_metadata(*_edge_args(kind, op[1]), op[2], copy.deepcopy(op[3]))
+    elif step == "del_attr_e":
+        h.remove_attr_from_edge_metadata(*_edge_args(kind, op[1]), op[2])
+    elif step == "set_nmd":
+        h.set_node_metadata(op[1], copy.deepcopy(op[2]))
+    elif step == "attr_n":
+        h.set_attr_to_node_metadata(op[1], op[2], copy.deepcopy(op[3]))
+    elif step == "del_attr_n":
+        h.remove_attr_from_node_metadata(op[1], op[2])
+    elif step == "attr_h":
+        h.set_attr_to_hypergraph_metadata(op[1], copy.deepcopy(op[2]))
+    else:
+        return False
+    return True
+
+
+SETTER_NAMES = {"set_w": "set_weight", "set_emd": "set_edge_metadata", "attr_e": "set_attr_to_edge_metadata",
+                "del_attr_e": "remove_attr_from_edge_metadata", "set_nmd": "set_node_metadata", "attr_n": "set_attr_to_node_metadata",
+                "del_attr_n": "remove_attr_from_node_metadata", "attr_h": "set_attr_to_hypergraph_metadata"}
+
+
 def ctor_build(hist, content):
     kind = hist["kind"]
     recs = content["records"]
@@ -203,20 +386,25 @@ def execute(hist):
                         h.add_edges([], weights=[])
                     elif kind in ("T", "M"):
                         h.add_edges([], [], weights=[])
-                else:
+                elif not setter_op(h, kind, op):
                     raise ValueError("unknown op " + str(step))
     except Exception as ex:
         names = {"node": "add_node", "edge": "add_edge", "rm_edge": "remove_edge", "rm_node": "remove_node", "flip": "add_edges",
                  "fix": "set_node_metadata", "constructor": "constructor", "ctor": "constructor"}
+        names.update(SETTER_NAMES)
         return None, f"{names.get(step, step)} raised {type(ex).__name__}"
     return h, None
 
 
 def same_content(a, b):
-    """Equal snapshots, weights also of the same numeric type."""
-    if a != b:
-        return False
-    return all(type(a["records"][k][0]) is type(b["records"][k][0]) for k in a["records"])
+    """Equal snapshots (Python ==).  The numeric type of every weight and metadata value is the same in the two histories of a
+    pair by construction: both write the final value of every element with the very Python value of one description."""
+    return a == b
+
+
+def reported_types_differ(a, b):
+    """Do the two (equal) snapshots report a weight with different numeric types?  Informational only."""
+    return any(type(a["records"][k][0]) is not type(b["records"][k][0]) for k in a["records"])
 
 
 def do_hash(h):
@@ -398,6 +586,15 @@ CATEGORY = {
     "hyperedge through a new node inserted, node removed (dropping the hyperedge)": "hyperedge and node inserted then removed",
     "isolated node removed and inserted again": "node removed and inserted again",
     "node removed with its hyperedges, all inserted again": "node removed and inserted again",
+    "weights given by set_weight after an insertion with other weights": "weight given by set_weight",
+    "weights changed by set_weight and set back": "weight given by set_weight",
+    "set_weight with the weight the hyperedge has": "weight given by set_weight",
+    "set_weight(1) in an unweighted container": "weight given by set_weight",
+    "hyperedge metadata installed by set_edge_metadata": "hyperedge metadata given by the setters",
+    "hyperedge metadata built by set_attr_to_edge_metadata / remove_attr_from_edge_metadata": "hyperedge metadata given by the setters",
+    "node metadata installed by set_node_metadata": "node metadata given by the setters",
+    "node metadata built by set_attr_to_node_metadata / remove_attr_from_node_metadata": "node metadata given by the setters",
+    "hypergraph metadata built by set_attr_to_hypergraph_metadata": "hypergraph metadata given by the setter",
 }
 
 
@@ -415,6 +612,8 @@ def equal_case(rep, hist_a, hist_b, name, pure=False, a=None):
         return err
     if not same_content(sa, sb):
         return "histories reach different public contents"
+    if reported_types_differ(sa, sb) and rep.ctx is not None:
+        rep.ctx.count(f"pairs whose getters report a weight in different numeric types although both histories wrote the same value [{tname}]")
     cl = "same content, same hash"
     rep.check(da == db, FN, cl, inp, expected="equal hashes (both objects report " + repr(base._show(sa))[:600] + ")",
               observed=[da, db], key=f"{FN}:{cl} [{tname}; {CATEGORY.get(name, name)}]", replay=rp)
@@ -452,17 +651,30 @@ def content_cases(ctx, rep, spec, salt, rng):
             ctx.count(f"pair skipped [{tname}; {name}]: {st}")
         else:
             ctx.count(f"equality pairs evaluated [{tname}]")
-    edits = list(single_edits(spec, salt))
+    # the setter histories, on the content enriched with typed scalars (int / float / bool) at every metadata level
+    tspec = typed_spec(spec, salt)
+    A2 = canonical(tspec)
+    a2 = _obj(rep, A2, "", {"history": A2}, {"part": "equal", "a": A2, "b": A2, "name": "same history twice"})
+    for name, B in setter_histories(tspec, salt):
+        ctx.case(base.spec_desc(tspec, v=name, h=base.zlib.crc32(repr(B).encode())), nontrivial=bool(spec["nodes"]))
+        st = equal_case(rep, A2, B, name, a=a2)
+        if st != "done":
+            ctx.count(f"pair skipped [{tname}; {name}]: {st}")
+        else:
+            ctx.count(f"equality pairs evaluated [{tname}]")
+            ctx.count(f"equality pairs through setters evaluated [{tname}]")
+    edits = [(name, spec2, None) for name, spec2 in single_edits(spec, salt)]
     if not spec["weighted"]:
         u, w = weightedness_pair(spec)
-        edits.append(("the weightedness", w))
-    flipped = None
+        edits.append(("the weightedness", w, None))
     if not spec["weighted"] and spec["kind"] in ("D", "T", "M"):
         flipped = dict(A, ops=list(A["ops"]) + [("flip",)])
-        edits.append(("the weightedness (switched on by a weighted batch after construction)", spec))
-    for name, spec2 in edits:
-        ctx.case(base.spec_desc(spec, v=name, h=base.zlib.crc32(repr(spec2).encode())), nontrivial=bool(spec["nodes"]))
-        st = differ_case(rep, spec, spec2, name, a=a, hist_b=flipped if name.startswith("the weightedness (switched") else None)
+        edits.append(("the weightedness (switched on by a weighted batch after construction)", spec, flipped))
+    edits += [(name, spec, B) for name, B in setter_edits(spec, salt)]
+    for name, spec2, hist_b in edits:
+        ctx.case(base.spec_desc(spec, v=name, h=base.zlib.crc32(repr(spec2 if hist_b is None else hist_b["ops"][-1]).encode())),
+                 nontrivial=bool(spec["nodes"]))
+        st = differ_case(rep, spec, spec2, name, a=a, hist_b=hist_b)
         if st != "done":
             ctx.count(f"edit skipped [{tname}; {name}]: {st}")
         else:
@@ -498,7 +710,8 @@ def _worker(args):
 
 def run(ctx):
     ctx.rule("one case = a pair of construction histories of one container type: (canonical history, variant history "
-             "ending in the same content) for the equality direction, (canonical history of a content, history of the "
+             "ending in the same content, incl. histories whose weights / metadata are written by set_weight and the "
+             "metadata setters with int, float and bool values) for the equality direction, (canonical history of a content, history of the "
              "content with one element edited) for the difference direction; contents enumerated over small universes, "
              "then seeded random larger ones; non-trivial = the content has at least one node")
     ctx.assume("the public getters report the content of a container faithfully (C01-C04); two objects have the same "
